@@ -1,6 +1,7 @@
 #!/usr/bin/env python3
 """mut.py <file> <old> <new> -- <check ids...> : apply a textual mutation to /repo (in place), run checks, revert."""
 import subprocess, sys
+import os as _os; _os.environ["VERIF_NO_EVIDENCE"] = "1"   # never let a run against a modified tree rewrite evidence/
 args = sys.argv[1:]
 i = args.index("--")
 f, old, new = args[0], args[1], args[2]
